@@ -281,7 +281,8 @@ def run_property(pid, spec, tier, seed):
             ev['coverage']['transitions'] = max(1, sum(int(results[o['name']].get('transitions', 0) or 0) for o in obligations))
             ev['coverage']['traces_validated_against_impl'] = sum(int(results[o['name']].get('traces_validated', 0) or 0) for o in obligations) + len(violations)
             ev['coverage']['states_note'] = 'states/transitions count symbolic state vectors and transition-relation disjuncts of the unrolled BMC formulas (each stands for all concrete states/steps at that depth)'
-        evdir = os.environ.get('VERIF_EVIDENCE_DIR', os.path.join(HERE, 'evidence'))    # (overridden only by tools/ when checking scratch copies)
+        # unclaimed supplementary checks (spec['claimed'] is False: C15) keep their report out of evidence/
+        evdir = os.environ.get('VERIF_EVIDENCE_DIR', os.path.join(HERE, 'evidence' if spec.get('claimed', True) else 'supplementary'))    # (overridden only by tools/ when checking scratch copies)
         os.makedirs(evdir, exist_ok=True)
         with open(os.path.join(evdir, pid + '.json'), 'w') as f:
             json.dump(ev, f, indent=1)
